@@ -265,6 +265,200 @@ let check_merge id before after =
   else if not (List.for_all2 (same_learner mag) m a) then
     report "MISMATCH" "merge" id ("merged learners differ: " ^ before ^ " -> " ^ after)
 
+
+(* ================================================================================================================== *)
+(* extension stage (C10_Ext): k-best selection for every k, k-split clustering, decision trees of any depth, criteria     *)
+(*   MISMATCH ext-kbest-select / ext-kbest-tables : the stored label sets / tables are not the model's first k of the      *)
+(*       sorted (delta, hash) pairs (C10_kbest_order, C10_kbest_topk_attained)                                             *)
+(*   MISMATCH ext-ksplit-fit / ext-ksplit-ids / ext-ksplit-tables : k-split score (rss), label -> group map and group      *)
+(*       means of the trial with the fitted number of groups (skipped when a merge step of the model is a (near-)tie)       *)
+(*   MISMATCH ext-tree-wf / ext-tree-bfs / ext-tree-walk : the fitted node table fails the well-formedness check of        *)
+(*       C10_tree_walk, the set-based breadth-first split or the per-sample walk disagree with split()                     *)
+(*   MISMATCH ext-crit : AIC / AICc / BIC score vs the criterion of the model's exact RSS candidates (same k, n)           *)
+(* ================================================================================================================== *)
+let ext_kbest = ref 0 and ext_ksplit = ref 0 and ext_tree = ref 0 and ext_crit = ref 0 and ext_ties = ref 0 and ext_skipped = ref 0
+let rec int_of_nat = function O -> 0 | S n -> 1 + int_of_nat n
+let class_col_of f = match Hashtbl.find_opt feats f with Some (FC a) -> Some (ccol_of a) | _ -> None
+let qlt_ a b = Q.lt (toQ a) (toQ b)
+let qeq_ a b = Q.equal (toQ a) (toQ b)
+let relclose a b = close a b ((rel12 */ (qabs a +/ qabs b)) +/ tiny)
+
+let crit_value crit (rss : float) (k : int) (n : int) : float =
+  let dk = float_of_int k and dn = float_of_int n in
+  match crit with
+  | "aic" -> 2.0 *. dk +. dn *. log rss -. dn *. log dn
+  | "aicc" -> (2.0 *. dk +. dn *. log rss -. dn *. log dn) +. 2.0 *. (dk *. dk +. dk) /. (dn -. dk -. 1.0)
+  | "bic" -> dk *. log dn +. dn *. log (rss /. dn)
+  | _ -> rss
+(* candidates: (exact clamped rss, k); the score must be the minimum of the criterion over the candidates, the exact RSS
+   being known to the implementation only within dr = 1e-9 * sum r^2 *)
+let check_crit tag crit (score : string) (cands : (q * int) list) w =
+  Stdlib.incr total; Stdlib.incr ext_crit;
+  let n = !cur_n in
+  let fl = float_of_q !floor_ in
+  let dr = 1e-9 *. float_of_q !sumr2 +. 1e-300 in
+  let lo = ref infinity and hi = ref infinity in
+  List.iter (fun (r, k) ->
+      let r = float_of_q (clamp !floor_ r) in
+      let a = crit_value crit (Float.max fl (r -. dr)) k n and b = crit_value crit (r +. dr) k n in
+      if Float.is_finite a && Float.is_finite b then begin
+        if a < !lo then lo := a;
+        if b < !hi then hi := b
+      end) cands;
+  if score = "nofit" then begin
+    if Float.is_finite !hi then report "MISMATCH" "ext-crit" tag (Printf.sprintf "no fit although the model has a candidate with a finite %s criterion (%h)" crit !hi)
+  end else begin
+    let s = parse_float score in
+    let eps = 1e-9 *. (1.0 +. Float.abs s) in
+    if not (Float.is_finite !hi) then report "MISMATCH" "ext-crit" tag ("model: no finite candidate, implementation score=" ^ score ^ " " ^ w)
+    else if not (s >= !lo -. eps && s <= !hi +. eps) then
+      report "MISMATCH" "ext-crit" tag (Printf.sprintf "%s score=%s outside [%h, %h] = criterion of the model's best candidate (n=%d) %s" crit score !lo !hi n w)
+  end
+
+(* first merge step of the agglomerative clustering whose closest pair is not unique within 1e-12 (relative): the trials
+   after it depend on floating-point rounding *)
+let first_ambiguous (trials : (clus list * nat list) list) : int =
+  let rec go i = function
+    | [] | [_] -> max_int
+    | (cl, _) :: rest ->
+        let (c1, c2) = closest (no ()) cl in
+        let arr = Array.of_list cl in
+        let best = c_dist (no ()) arr.(int_of_nat c1) arr.(int_of_nat c2) in
+        let amb = ref false in
+        let m = Array.length arr in
+        for a = 0 to m - 2 do for b = a + 1 to m - 1 do
+          if not (a = int_of_nat c1 && b = int_of_nat c2) && relclose (c_dist (no ()) arr.(a) arr.(b)) best then amb := true
+        done done;
+        if !amb then i else go (i + 1) rest in
+  go 0 trials
+
+let check_ext id name crit score w =
+  let tag = id ^ " " ^ name ^ " " ^ crit in
+  let nofit = score = "nofit" in
+  let nouts = !cur_no in
+  let ccols = List.map ccol_of (class_cols ()) in
+  let scols = List.map scol_of (scalar_cols ()) in
+  let bins c = List.length (keys_of (List.filter_map (fun (k, r) -> match k with Some k -> Some (k, r) | None -> None) c)) in
+  (* ---- criteria: the minimiser over candidates with the same k and n is the RSS minimiser (C10_criterion_monotone) ---- *)
+  if crit <> "rss" then begin
+    match name with
+    | "stump" -> check_crit tag crit score (match stump_fit (no ()) !floor_ scols with Some q -> [(q, 2 * nouts + 1)] | None -> []) w
+    | "affine" -> check_crit tag crit score (match affine_fit (no ()) !floor_ scols with Some q -> [(q, 2 * nouts)] | None -> []) w
+    | "dense-table" -> check_crit tag crit score (List.concat_map (fun c -> List.map (fun q -> (q, bins c * nouts)) (dense_cands (no ()) !floor_ c)) ccols) w
+    | "dstep-table" -> check_crit tag crit score (List.concat_map (fun c -> List.map (fun q -> (q, nouts)) (kbest_rss_seq (no ()) (B.big_int_of_int 1) c)) ccols) w
+    | "kbest-table" ->
+        check_crit tag crit score (List.concat_map (fun c -> List.mapi (fun i q -> (q, (i + 1) * nouts)) (kbest_rss_seq (no ()) (B.big_int_of_int (-1)) c)) ccols) w
+    | "ksplit-table" ->
+        if List.for_all (fun c -> first_ambiguous (ksplit_trials (no ()) c) = max_int) ccols then
+          check_crit tag crit score (List.concat_map (fun c -> let b = bins c in List.mapi (fun ic q -> (q, (b - ic) * nouts)) (ksplit_rss_seq (no ()) c)) ccols) w
+        else Stdlib.incr ext_skipped
+    | _ -> ()
+  end;
+  (* ---- k-split, rss: the proved optimum (C10_ksplit_optimal) ------------------------------------------------------- *)
+  if name = "ksplit-table" && crit = "rss" then begin
+    Stdlib.incr total; Stdlib.incr ext_ksplit;
+    let tol = (rel9 */ !sumr2) +/ tiny in
+    match ksplit_fit (no ()) !floor_ ccols, score with
+    | None, "nofit" -> ()
+    | None, s -> report "MISMATCH" "ext-ksplit-fit" tag ("model: no candidate, implementation score=" ^ s ^ " " ^ w)
+    | Some q, "nofit" -> report "MISMATCH" "ext-ksplit-fit" tag (Printf.sprintf "model optimum=%h, implementation: no fit" (float_of_q q))
+    | Some q, s -> if not (close (q_of_float (parse_float s)) q tol) then
+          report "MISMATCH" "ext-ksplit-fit" tag (Printf.sprintf "model optimum=%h implementation score=%s %s" (float_of_q q) s w)
+  end;
+  if not nofit then begin
+    match parse_w w with
+    | Some (WTable (f, hs, h2t, t)) when name = "kbest-table" ->
+        (match class_col_of (int_of_nat f) with
+         | None -> report "MISMATCH" "ext-kbest-select" tag ("the fitted feature is not categorical: " ^ w)
+         | Some c ->
+             Stdlib.incr total; Stdlib.incr ext_kbest;
+             let k = List.length hs in
+             let mh = kbest_hashes (no ()) c (nat_of_int k) in
+             let same = List.length mh = k && List.for_all2 B.eq_big_int mh hs in
+             if not same then begin
+               (* the source's rule stated directly: lexicographic order of (delta, hash); two deltas that differ by less than
+                  1e-12 (relative) without being equal may be ordered either way by the floating-point division *)
+               let sorted = kbest_sorted (no ()) c in
+               let delta h = List.find_opt (fun (_, h') -> B.eq_big_int h h') sorted in
+               let before (d1, h1) (d2, h2) = if qeq_ d1 d2 then B.lt_big_int h1 h2 else (qlt_ d1 d2 || relclose d1 d2) in
+               let sel = List.map delta hs in
+               let ok = ref (List.length hs <= List.length sorted && List.for_all (fun x -> x <> None) sel) in
+               if !ok then begin
+                 let sel = List.map (function Some x -> x | None -> assert false) sel in
+                 let rec chain = function a :: (b :: _ as r) -> before a b && chain r | _ -> true in
+                 if not (chain sel) then ok := false;
+                 (match List.rev sel with
+                  | last :: _ -> List.iter (fun (d, h) -> if not (List.exists (B.eq_big_int h) hs) && not (before last (d, h)) then ok := false) sorted
+                  | [] -> ok := false)
+               end;
+               if !ok then Stdlib.incr ext_ties
+               else report "MISMATCH" "ext-kbest-select" tag
+                   (Printf.sprintf "stored label sets [%s] are not the first %d of the sorted (delta, hash) pairs [%s] %s"
+                      (String.concat "," (List.map B.string_of_big_int hs)) k
+                      (String.concat ";" (List.map (fun (d, h) -> Printf.sprintf "%h:%s" (float_of_q d) (B.string_of_big_int h)) sorted)) w)
+             end;
+             (* the tables are the bin means of the stored label sets *)
+             let bad = ref false in
+             List.iteri (fun i h ->
+                 let m = kbest_pred (no ()) c (nat_of_int 1000) h and r = row i t in
+                 List.iteri (fun o v -> if not !bad && not (close v (rget o m) ((rel12 */ qabs (rget o m)) +/ tiny)) then begin
+                     bad := true;
+                     report "MISMATCH" "ext-kbest-tables" tag (Printf.sprintf "table %d output %d: bin mean=%h implementation=%h %s" i o (float_of_q (rget o m)) (float_of_q v) w)
+                   end) r) hs;
+             ignore h2t)
+    | Some (WTable (f, hs, h2t, t)) when name = "ksplit-table" ->
+        (match class_col_of (int_of_nat f) with
+         | None -> report "MISMATCH" "ext-ksplit-ids" tag ("the fitted feature is not categorical: " ^ w)
+         | Some c ->
+             Stdlib.incr total; Stdlib.incr ext_ksplit;
+             let trials = ksplit_trials (no ()) c in
+             let nb = List.length hs and ng = List.length t in
+             let ic = nb - ng in
+             if nb <> List.length trials || ic < 0 then
+               report "MISMATCH" "ext-ksplit-ids" tag (Printf.sprintf "%d label sets, %d groups, model has %d trials %s" nb ng (List.length trials) w)
+             else if ic > first_ambiguous trials then Stdlib.incr ext_ties
+             else begin
+               let (cl, ids) = List.nth trials ic in
+               let mids = List.map int_of_nat ids and iids = List.map B.int_of_big_int h2t in
+               if mids <> iids then
+                 report "MISMATCH" "ext-ksplit-ids" tag
+                   (Printf.sprintf "label -> group map of trial %d: model [%s] implementation [%s] %s" ic
+                      (String.concat "," (List.map string_of_int mids)) (String.concat "," (List.map string_of_int iids)) w)
+               else begin
+                 let bad = ref false in
+                 List.iteri (fun g cg ->
+                     let m = c_mean (no ()) cg and r = row g t in
+                     List.iteri (fun o v -> if not !bad && not (close v (rget o m) ((rel12 */ qabs (rget o m)) +/ tiny)) then begin
+                         bad := true;
+                         report "MISMATCH" "ext-ksplit-tables" tag (Printf.sprintf "group %d output %d: model mean=%h implementation=%h %s" g o (float_of_q (rget o m)) (float_of_q v) w)
+                       end) r) cl
+               end
+             end)
+    | Some (WTree (nodes, t)) ->
+        Stdlib.incr total; Stdlib.incr ext_tree;
+        if not (tree_wf nodes (B.big_int_of_int (List.length t))) then
+          report "MISMATCH" "ext-tree-wf" tag ("the fitted node table is not well-formed (pairs, forward pointers, leaf tables): " ^ w)
+    | _ -> ()
+  end
+
+(* the set-based breadth-first split of the model (tree_bfs) and the per-sample walk against split() of the library *)
+let check_tree_split tag (nodes : node list) (groups : string list) =
+  Stdlib.incr total; Stdlib.incr ext_tree;
+  let n = List.length groups in
+  let ss = List.init n (fun i -> (nat_of_int i, sample_of i)) in
+  let asg = tree_bfs (nat_of_int (List.length nodes + 2)) nodes [(B.zero_big_int, ss)] in
+  let bad = ref false in
+  List.iteri (fun i g ->
+      if not !bad then begin
+        let str = function None -> "-1" | Some z -> B.string_of_big_int z in
+        let b = str (assigned (nat_of_int i) asg) and wk = str (walk_from nodes B.zero_big_int (sample_of i)) in
+        if b <> String.trim g then begin
+          bad := true; report "MISMATCH" "ext-tree-bfs" tag (Printf.sprintf "sample#%d: breadth-first model group=%s implementation=%s" i b g)
+        end else if wk <> String.trim g then begin
+          bad := true; report "MISMATCH" "ext-tree-walk" tag (Printf.sprintf "sample#%d: walk group=%s implementation=%s" i wk g)
+        end
+      end) groups
+
 (* ---- main loop -------------------------------------------------------------------------------------------------- *)
 let kv tok = match split '=' tok with [k; v] -> (k, v) | _ -> (tok, "")
 let () =
@@ -291,7 +485,7 @@ let () =
            let rows = List.map (fun s -> List.map qopp (qs_of s)) (split ';' vals) in
            resid := Array.of_list rows;
            sumr2 := List.fold_left (fun acc r -> List.fold_left (fun a x -> a +/ (x */ x)) acc r) qz rows
-       | "FIT" :: id :: name :: crit :: score :: w :: _ -> check_fit id name crit score w
+       | "FIT" :: id :: name :: crit :: score :: w :: _ -> check_fit id name crit score w; check_ext id name crit score w
        | "PRED" :: id :: name :: crit :: "|" :: [preds] ->
            let tag = id ^ " " ^ name ^ " " ^ crit in
            (match Hashtbl.find_opt learners tag with
@@ -300,7 +494,10 @@ let () =
        | "SPLIT" :: id :: name :: crit :: "|" :: [groups] ->
            let tag = id ^ " " ^ name ^ " " ^ crit in
            (match Hashtbl.find_opt learners tag with
-            | Some w -> (match parse_w w with Some wl -> check_split tag wl (split ',' groups) | None -> ())
+            | Some w -> (match parse_w w with
+                         | Some wl -> check_split tag wl (split ',' groups);
+                                      (match wl with WTree (nodes, _) -> check_tree_split tag nodes (split ',' groups) | _ -> ())
+                         | None -> ())
             | None -> ())
        | "SCALE" :: id :: name :: crit :: "|" :: sc :: "|" :: [preds] ->
            let tag = id ^ " " ^ name ^ " " ^ crit in
@@ -313,4 +510,5 @@ let () =
        | _ -> ()
      done
    with End_of_file -> ());
+  Printf.printf "EXT-DONE kbest=%d ksplit=%d tree=%d crit=%d ties_skipped=%d crit_skipped=%d\n" !ext_kbest !ext_ksplit !ext_tree !ext_crit !ext_ties !ext_skipped;
   Printf.printf "MODEL-DONE checked=%d mismatches=%d\n" !total !mism
